@@ -44,15 +44,24 @@ off64_t _GD_GetIOPos(DIRFILE *D, gd_entry_t *E, off64_t index_pos)
 
   switch (E->field_type) {
     case GD_RAW_ENTRY:
-      /* We must open the file to know its starting offset */
-      if (E->e->u.raw.file[0].idata < 0)
-        if (_GD_InitRawIO(D, E, NULL, -1, NULL, 0, GD_FILE_READ,
-              _GD_FileSwapBytes(D, E)))
-        {
-          break;
-        }
-      pos = E->e->u.raw.file[0].pos + E->EN(raw,spf) *
-        D->fragment[E->fragment_index].frame_offset;
+      if ((_GD_ef[E->e->u.raw.file[0].subenc].flags & GD_EF_OOP) &&
+          E->e->u.raw.file[1].idata >= 0)
+      {
+        /* during an out-of-place write the I/O pointer is the write pointer:
+         * the read-side pointer stops at the end of the old file (and may
+         * not be open at all) */
+        pos = E->e->u.raw.file[1].pos;
+      } else {
+        /* We must open the file to know its starting offset */
+        if (E->e->u.raw.file[0].idata < 0)
+          if (_GD_InitRawIO(D, E, NULL, -1, NULL, 0, GD_FILE_READ,
+                _GD_FileSwapBytes(D, E)))
+          {
+            break;
+          }
+        pos = E->e->u.raw.file[0].pos;
+      }
+      pos += E->EN(raw,spf) * D->fragment[E->fragment_index].frame_offset;
       break;
     case GD_LINCOM_ENTRY:
       pos = _GD_GetIOPos(D, E->e->entry[0], -1);
@@ -150,9 +159,10 @@ off64_t _GD_DoSeek(DIRFILE *D, gd_entry_t *E, const struct encoding_t *enc,
     off64_t offset, unsigned int mode)
 {
   off64_t pos;
-  const int oop_write = ((enc->flags & GD_EF_OOP) &&
-      (E->e->u.raw.file[1].idata >= 0)) ? 1 : 0;
   const int temp = (mode & GD_FILE_TEMP) ? 1 : 0;
+  /* positioning a temporary file is never part of an out-of-place write */
+  const int oop_write = (!temp && (enc->flags & GD_EF_OOP) &&
+      (E->e->u.raw.file[1].idata >= 0)) ? 1 : 0;
   const int which = (oop_write || temp) ? 1 : 0;
 
   dtrace("%p, %p, %p, %" PRId64 ", 0x%X", D, E, enc, (int64_t)offset, mode);
